@@ -130,8 +130,9 @@ def gen_case_c14(seed: int, s: int, w: int, tier: str) -> dict:
                 script.append(spec)
                 if spec["op"] in GRAPH_VALUED:
                     _, _, rm = model_op(spec, m)
-                    own.append((len(script) - 1, rm))
-                    new_prev.append((["p", r, c, len(script) - 1], rm))
+                    if rm is not None:  # None: the outcome of a bad-argument call is not modelled
+                        own.append((len(script) - 1, rm))
+                        new_prev.append((["p", r, c, len(script) - 1], rm))
             scripts[c] = script
         rnd: dict[str, Any] = {"scripts": scripts}
         prev += new_prev
